@@ -719,7 +719,11 @@ def check_b(ck, repo):
     if len(cc) == 1:
         b = {k: ex.text(v, sl, cc[0]) for k, v in bind(cc[0], repo.func(POLY, "_combinations_poly").named_params).items()}
         okc = b == {"n_features": "X.shape[1]", "degree": "self.poly_degree", "interaction_only": "self.poly_interaction_only", "include_bias": "self.poly_include_bias"}
-    ck.verdict(okc, "C11.b", sl, cc[0] if cc else "_combinations_poly(...)", "slow path enumerates combinations with the same options", "slow path does not pass (n_features, degree, interaction_only, include_bias)")
+    slow_unread = not cc
+    if slow_unread:
+        ck.unknown("C11.b", sl, "_combinations_poly(...)", "the slow path does not call _combinations_poly: the enumeration it loops over is written another way, which this rule does not compare with the shared one")
+    else:
+        ck.verdict(okc, "C11.b", sl, cc[0] if cc else "_combinations_poly(...)", "slow path enumerates combinations with the same options", "slow path does not pass (n_features, degree, interaction_only, include_bias)")
     loop = [l for l in own_nodes(sl.node) if isinstance(l, ast.For)]
     okl = False
     if len(loop) == 1 and isinstance(loop[0].iter, ast.Call) and src_of(loop[0].iter.func) == "enumerate" and isinstance(loop[0].target, ast.Tuple) and len(loop[0].target.elts) == 2 and len(loop[0].body) == 1 and cc:
@@ -739,7 +743,10 @@ def check_b(ck, repo):
             ck.verdict(alloc.startswith("numpy.empty((X.shape[0],self.n_output_features_)"), "C11.b", sl, f"{arr} = {alloc[:60]}", "output has n_output_features_ columns", "allocated output width is not n_output_features_")
             rets = [src_of(r.value) for r in own_nodes(sl.node) if isinstance(r, ast.Return)]
             okl = okl and rets == [arr]
-    ck.verdict(okl, "C11.b", sl, loop[0].body[0] if loop else "XP[:, i] = X[:, comb].prod(1)", "column i is the product of the columns of combination i", "slow path column i is not the product over combination i")
+    if slow_unread and not okl:
+        pass  # reported above as unknown
+    else:
+        ck.verdict(okl, "C11.b", sl, loop[0].body[0] if loop else "XP[:, i] = X[:, comb].prod(1)", "column i is the product of the columns of combination i", "slow path column i is not the product over combination i")
     cp = repo.func(POLY, "_combinations_poly")
     from .sem import ptext as _t
 
